@@ -57,6 +57,11 @@ class ScriptSock(object):
         pass
 
     def connect(self, addr):
+        try:
+            self.addr_idx = int(str(addr[0]).rsplit('.', 1)[-1])      # 192.0.2.<index>, 1-based (see getaddrinfo below)
+        except Exception:
+            self.addr_idx = 0
+        self.eng.attempt_addr[self.k] = self.addr_idx
         self.eng.cur.append('T%d' % self.k)
         ev = self.eng.answer('connect', self)
         if ev[0] == 'connok':
@@ -115,6 +120,7 @@ class Eng(object):
         self.cur = []
         self.nsock = 0
         self.addr_index = -1
+        self.attempt_addr = {}          # socket number -> index of the resolved address it was pointed at
         self.socks = {}
         self.client = None
         self.in_auth = False
@@ -422,6 +428,52 @@ def sweep_cases(double=False):
             yield plan, naddr, eng
 
 
+class Failover(object):
+    """a broker host that resolves to several addresses of which exactly ONE is reachable at a time: first only the
+    LAST one (the client gets in through it after the earlier ones refused), then - once the client has been connected and
+    reading - the connection drops and only the FIRST one is reachable (fail-over back; DNS unchanged).  A client with
+    reconnection enabled must get in again: the broker IS reachable."""
+
+    def __init__(self, naddr, limit=70):
+        self.naddr, self.limit, self.n = naddr, limit, 0
+        self.phase, self.reads, self.nonce = 1, 0, 0
+
+    def __call__(self, kind, eng, sock, pc):
+        self.n += 1
+        if self.n > self.limit:
+            return None
+        if kind == 'connect':
+            up = self.naddr if self.phase == 1 else 1
+            return ['connok'] if getattr(sock, 'addr_idx', 0) == up else ['refuse']
+        if kind == 'send':
+            return ['sendok']
+        if eng.in_auth:
+            self.nonce += 1
+            return ['data', hexin(P.msginfo('hp', bytes([self.nonce & 255, 9, 9, 9])))]
+        self.reads += 1
+        if self.phase == 1 and self.reads == 2:
+            self.phase = 2
+            return ['eof']
+        if self.phase == 2 and self.reads > 5:
+            return None
+        return ['data', hexin(P.msgpublish('a', 'c', b'x m%d' % self.reads))]
+
+
+def failover_cases():
+    for naddr in (2, 3):
+        eng = Eng('me', 'secret', naddr, Failover(naddr))
+        try:
+            try:
+                eng.app(['new'])
+                eng.app(['sub', hexin(b'c')])
+                eng.app(['run'])
+            except TapeEnd:
+                pass
+        finally:
+            eng.restore()
+        yield naddr, eng
+
+
 class Replay(object):
     def __init__(self, events):
         self.events = list(events)
@@ -508,6 +560,7 @@ def monitors(res, cfg, eng, script):
     check_subscribe_blocks(res, ident, events, lines, script)
     check_callbacks(res, eng, script)
     check_stop_and_reconnect(res, events, lines, script)
+    check_every_address_tried(res, eng, events, script)
     if eng.excs and script.get('legal'):
         res.violation('C12', 'exception-escaped', 'blocking Client: %s escaped to the application although the broker sent only well-formed frames' % eng.excs[0][:160], script)
 
@@ -603,6 +656,32 @@ def check_callbacks(res, eng, script):
             res.violation('C12', 'message-lost', 'blocking Client.run is waiting in recv() on connection %d having received %d complete PUBLISH/ERROR frame(s) but made only %d callback(s)' % (k, len(exp), len(got)), script)
 
 
+def check_every_address_tried(res, eng, events, script):
+    """C13 at the level of resolved addresses: the broker is reachable whenever ANY of the host's addresses accepts.  A
+    client that goes through 3 x naddr consecutive refused attempts without pointing a single one at some address has
+    given that address up - if the broker is only reachable there it never comes back (no back-off is prescribed; the
+    shipped client walks all addresses on every round, i.e. every address appears within any 2 x naddr attempts)."""
+    naddr = script['naddr']
+    if naddr < 2:
+        return
+    run = []       # address indices of the current run of consecutive refused attempts
+    k = 0          # attempts are numbered like the sockets: the i-th connect answer belongs to socket i
+    for ev in events:
+        if ev[0] in ('refuse', 'connok'):
+            k += 1
+            idx = eng.attempt_addr.get(k)
+            if ev[0] == 'connok' or idx is None:
+                run = []
+                continue
+            run.append(idx)
+            if len(run) >= 3 * naddr:
+                window = run[-3 * naddr:]
+                missing = [a for a in range(1, naddr + 1) if a not in window]
+                if missing:
+                    res.violation('C13', 'address-given-up', 'blocking Client: %d consecutive connection attempts were refused (addresses %r of %d resolved) and none was made to address %r: a broker reachable only there is never reached again' % (len(window), window, naddr, missing), script)
+                    return
+
+
 def check_stop_and_reconnect(res, events, lines, script):
     prev_pc, prev_stop = 'fresh', False
     in_cb_publish = False
@@ -683,6 +762,16 @@ def run(tier, seed, drv, prop=None):
             monitors(res, ('me', 'secret'), eng, script)
             res.evaluations += 1
             res.note('sweep')
+            res.nontriv([json.dumps(events)[:4000]])
+            compare(res, drv, script, events, eng.lines)
+    if prop in (None, 'C13'):
+        for naddr, eng in failover_cases():
+            events = eng.events[:len(eng.lines)]
+            script = {'client': 'blocking-client', 'ident': 'me', 'secret': 'secret', 'naddr': naddr, 'events': events,
+                      'legal': True, 'failover': True}
+            monitors(res, ('me', 'secret'), eng, script)
+            res.evaluations += 1
+            res.note('failover')
             res.nontriv([json.dumps(events)[:4000]])
             compare(res, drv, script, events, eng.lines)
     res.assumptions += [
